@@ -108,7 +108,10 @@ def cases(unit: tuple) -> Iterator[Any]:
             yield s
             yield s.rstrip("\n")
     elif k == "eline":
-        yield {"eline": unit[1]}
+        info: dict = {}
+        for h, _toks, _err in linebfs.iter_bfs(linebfs.ALPHABET_CORE, unit[1], info):
+            yield {"lines": h}
+        _ELINE_INFO.update(info)
 
 
 def run_unit(unit: tuple, acc: Any) -> None:
@@ -117,8 +120,8 @@ def run_unit(unit: tuple, acc: Any) -> None:
 
 
 def check_case(case: Any, acc: Any) -> None:
-    if isinstance(case, dict) and "eline" in case:
-        return _eline(case["eline"], acc)
+    if isinstance(case, dict) and "lines" in case:
+        return _eline(case, acc)
     src = case["src"] if isinstance(case, dict) else case
     if not run.python_lexicon(src) or ">&" in src or "@(" in src:
         acc.count("outside:xonsh-lexeme")
@@ -137,17 +140,20 @@ def check_case(case: Any, acc: Any) -> None:
     acc.violation(r[1], src, r[2])
 
 
-def _eline(depth: int, acc: Any) -> None:
-    def on_transition(hist: list[str], toks: list, err: Any) -> None:
-        src = "".join(hist)
-        if run.python_lexicon(src) and ">&" not in src and "@(" not in src:
-            r = cpy_tok.compare(src)
-            acc.ran()
-            if r is not None and r[0] == "diff":
-                acc.violation(r[1] + " [E-LINE]", {"src": src, "lines": hist}, r[2], text=src)
+_ELINE_INFO: dict = {}
 
-    info = linebfs.bfs(linebfs.ALPHABET_CORE, depth, on_transition)
-    acc.notes["eline"] = info
+
+def _eline(case: dict, acc: Any) -> None:
+    """One transition of the E-LINE search: the line history is tokenized by both tokenizers."""
+    hist = case["lines"]
+    src = "".join(hist)
+    if run.python_lexicon(src) and ">&" not in src and "@(" not in src:
+        r = cpy_tok.compare(src)
+        acc.ran()
+        if r is not None and r[0] == "diff":
+            acc.violation(r[1] + " [E-LINE]", {"src": src, "lines": hist}, r[2], text=src)
+    if _ELINE_INFO:
+        acc.notes["eline"] = dict(_ELINE_INFO)
 
 
 def finalize(acc: Any, tier: str) -> dict:
